@@ -8,7 +8,8 @@ META = {
     "level_text": "props/C14.v proves both directions on the model of serve/wait shared with C13: the refutation c14_prompt_refuted (an explicit 2-thread schedule reaching a state "
                   "where the waiter's reply is ready while it polls an empty stream: serve releases the receive lock and notifies before it dispatches) and c14_only_this_window "
                   "(in every reachable state a waiter whose reply has been processed and that cannot move is either polling an empty stream itself or sleeping behind a thread "
-                  "that holds / has just released the receive lock). The check replays random schedules of the real code under a virtual clock and reports any lateness; the two "
+                  "that holds / has just released the receive lock), and c14_window_entered_from_the_test (a ghost layer over the same system, proofs/ServeG.v: in every execution a waiter "
+                  "past its readiness test made that test when its reply had not been dispatched yet and has not slept since - a woken sleeper goes back to the test first). The check replays random schedules of the real code under a virtual clock and reports any lateness; the two "
                   "window shapes are the known finding F5, anything else is a new violation. The schedule of the refutation theorem itself is also driven deterministically on the real code (witness phase).",
     "level_note": "Trusted: Coq kernel, pygen, extraction+driver, the virtual Lock/Condition/poll/clock (harness/vsched.py). Lateness is measured in virtual time; wall-clock "
                   "scheduling is outside the model.",
